@@ -27,7 +27,7 @@ def plan(tier, seed):
 
 def thresholds(tier):
   t = {"programs": 250, "cycles_cosimulated": 5000, "driver_sets_analysed": 3000, "corpus_cases_cosimulated": 55,
-       "stdlib_components_cosimulated": 60, "generated_designs_cosimulated": 150, "param_designs_cosimulated": 60, "svsim_lrm_examples_ok": 24,
+       "stdlib_components_cosimulated": 60, "generated_designs_cosimulated": 150, "param_designs_cosimulated": 60, "svsim_lrm_examples_ok": 24, "struct_constants_evaluated_in_text": 40,
        "form:always_ff": 50, "form:for": 5, "form:size cast N'(e)": 20, "form:replication": 50, "form:typedef struct packed": 50,
        "form:module instance": 50, "form:localparam": 1, "form:indexed part select +:": 1, "form:?:": 50}
   if tier == "thorough":
@@ -38,7 +38,7 @@ def thresholds(tier):
 def knobs(rng):
   return {"depth": rng.choice([0, 1, 1, 2]), "max_children": rng.choice([1, 2]), "p_struct": rng.choice([0.2, 0.5]), "p_list": 0.4,
           "p_ff": 0.25, "max_sigs": rng.choice([3, 4]), "expr_depth": rng.choice([2, 3]),
-          "p_nested_field": rng.choice([0, 0.3]), "p_list_field": rng.choice([0, 0.35]), "for_full_desc": rng.random() < 0.6}
+          "p_nested_field": rng.choice([0, 0.3]), "p_list_field": rng.choice([0, 0.35]), "p_const_struct": rng.choice([0.2, 0.7]), "for_full_desc": rng.random() < 0.6}
 
 
 # ---- known-finding predicates over the witness --------------------------------------------------------------------
